@@ -81,7 +81,7 @@ def check_program(item):
     p = dict(prog, timestep=1, maxSteps=MAXSTEPS)
     text = gd.render(prog)
     try:
-        sc = dyn.compile_scenario(text)
+        sc = dyn.compile_scenario(text, **({"scenario": prog["main"]} if prog.get("main") else {}))
         scene, _ = sc.generate(maxIterations=5)
     except Exception as e:  # noqa: BLE001
         out["violations"].append((f"compile:{type(e).__name__}", f"{e!r}\n{text}", {"idx": idx, "prog": prog, "tier": tier, "kind": "compile"}))
